@@ -9,6 +9,7 @@ CONSTANTS K,          \* maximal number of operators in the outer chain
           MaxSpecial, \* maximal number of operands that are not a plain reference
           OpsUsed,    \* operator spellings used in the outer chain
           SubOps,     \* operator spellings used inside parentheses
+          Lits,       \* integer literals that may stand as operands ("-2" is written - 2 and parsed to one literal)
           Nest        \* nesting depths of a parenthesised operand: 2 = ((...)) directly doubled
 
 VARIABLES chain, tree, special
@@ -17,12 +18,12 @@ vars == <<chain, tree, special>>
 CaseFile == IOEnv.CASE_FILE
 
 SubChains == {<<>>} \cup {<<o>> : o \in SubOps} \cup {<<o1, o2>> : o1 \in SubOps, o2 \in SubOps}
-Operands(i) == {[f |-> "ref", i |-> i]}
+Operands(i) == {[f |-> "ref", i |-> i]} \cup {[f |-> "lit", i |-> i, v |-> v] : v \in Lits}
                \cup (IF MaxSpecial = 0 THEN {} ELSE
                      {[f |-> "neg", i |-> i], [f |-> "pos", i |-> i]}
                      \cup {[f |-> "par", i |-> i, sub |-> s, d |-> d] : s \in SubChains, d \in Nest}
                      \cup {[f |-> "npar", i |-> i, sub |-> s, d |-> d] : s \in SubChains, d \in Nest})
-IsSpecial(x) == x.f # "ref"
+IsSpecial(x) == x.f \notin {"ref", "lit"}
 
 Emit(c) == CSVWrite("%1$s", <<ToJson([toks |-> ChainToks(c), want |-> RefTree(c),
                                       nops |-> Len(c.items), special |-> Len(SelectSeq(<<c.first>> \o [j \in 1..Len(c.items) |-> c.items[j].x], IsSpecial))])>>, CaseFile)
